@@ -1,4 +1,5 @@
 """Shared recognisers for messageq_t users (C04, C06, C07, C10)."""
+from ..ir import AnalysisError
 from .. import build, flow, paths
 from ..paths import ptr_parts, strip_casts
 
@@ -33,7 +34,27 @@ def acc_field(a):
     return None
 
 
+EXPECTED_FIELDS = ("basep", "msg_len", "queue_len", "num_free", "sendp", "full_flags", "receivep")
+
+
+def check_representation(mods):
+    """The rules of C04 / C10 / C07 are stated over messageq_t as the property's anchors describe it (a free counter, a send
+    cursor, a word of 'full' flags, a receive cursor).  If the structure no longer has those members the rules have no
+    subject: that is 'cannot decide' (exit 2), never a verdict."""
+    for m in mods:
+        tid = m.di_by_name.get(STRUCT)
+        if tid:
+            have = set(p for p, o, s_, t in m.di_leaves(tid))
+            missing = [f for f in EXPECTED_FIELDS if f not in have]
+            if missing:
+                raise AnalysisError("anchor vanished: messageq_t.%s (the queue's representation changed: members now %s); the rules "
+                                    "stated over the documented representation cannot decide this tree" % (", ".join(missing), ", ".join(sorted(have))))
+            return
+    raise AnalysisError("anchor vanished: messageq_t has no debug info in the analysed units")
+
+
 def mq_functions(mods):
+    check_representation(mods)
     out = []
     for m in mods:
         for fn in m.defined_functions():
